@@ -131,7 +131,10 @@ def corruptions(data, rows, tier, smallest):
     return out
 
 
-PRIORS = ["empty", "holds-recorded-same", "holds-unrecorded-dir", "holds-unrelated", "stale-staging", "stale-staging-other", "format1-index"]
+PRIORS = ["empty", "holds-recorded-same", "holds-unrecorded-dir", "holds-unrelated", "stale-staging", "stale-staging-other", "format1-index",
+          "stale-staging-same"]
+# corruptions after which the restore "cannot complete" by the statement (archive lacks its index or a listed directory / is no archive)
+MUST_FAIL = ("no-index", "no-dir", "garbage-index", "empty-tar", "not-a-tar", "zero-bytes", "file-instead-of-dir", "row-without-dir", "v3-index")
 
 
 def make_prior(prior, rows, other):
@@ -160,14 +163,15 @@ def make_prior(prior, rows, other):
         c.commit()
         c.close()
         driver.write_tree(co, {"e1.task.999/keep.txt": "keep\n", "%s/keep.txt" % vdir((first[0], first[1] + 7)): "keep3\n"})
-    elif prior in ("stale-staging", "stale-staging-other"):
+    elif prior in ("stale-staging", "stale-staging-other", "stale-staging-same"):
         driver.make_index(os.path.join(co, "version_index.sqlite"), [("//:e1", 999, None, 0)])
         driver.write_tree(co, {"e1.task.999/keep.txt": "keep\n"})
         st = os.path.join(co, "archive-tmp")
         os.makedirs(st)
         p = os.path.join(st, "in.tar.gz")
         with open(p, "wb") as f:
-            f.write(other[0])
+            # "same": what a SIGKILLed restore of the very archive that is restored next (intact copy) left in the staging area
+            f.write(other[0] if prior != "stale-staging-same" else other[3])
         subprocess.run(["tar", "xzf", p, "-C", st], check=True)
         os.unlink(p)
         if prior == "stale-staging-other":
@@ -224,7 +228,8 @@ def run_item(item, tier):
         found.setdefault(key, (what, art))
 
     data, arows, adirs, src = make_archive(item["nv"])
-    other = make_archive(2, t0=1_600_000_000, name="c12other", target="//:e2")
+    other = make_archive(2, t0=1_600_000_000, name="c12other", target="//:e2") + (data,)
+    other = (other[0], other[1], other[2], data)
     if item["kind"] == "corrupt":
         for cname, cdata in corruptions(data, arows, tier, smallest=(item["nv"] == 1)):
             root = make_prior(item["prior"], arows, other)
@@ -244,7 +249,10 @@ def run_item(item, tier):
             k = "restore_succeeded" if success else "restore_failed"
             res["counters"][k] = res["counters"].get(k, 0) + 1
             oracle(root, rows_before, recorded_before, arows, adirs, success, viol, art, "corrupt:" + cname.split("@")[0].split(":")[0])
-            if cname == "none" and item["prior"] in ("empty", "holds-unrelated", "stale-staging", "stale-staging-other", "format1-index") and not success:
+            if success and cname.split("@")[0].split(":")[0] in MUST_FAIL:
+                viol("corrupt:%s:restored-anyway" % cname.split(":")[0], "the archive is damaged (%s) but cond restore reported success (prior state %s)"
+                     % (cname, item["prior"]), art)
+            if cname == "none" and item["prior"] in ("empty", "holds-unrelated", "stale-staging", "stale-staging-other", "format1-index", "stale-staging-same") and not success:
                 viol("valid-restore-failed", "restoring a valid archive into prior state %s failed: %r %s" % (item["prior"], r.exc, r.err_text[:200]), art)
         res["sample"] = {"archive_rows": arows, "prior": item["prior"], "corruptions": "index/dir removed, truncations, garbage/format-1 index, ..."}
     else:
